@@ -45,7 +45,12 @@ func ghostHas(bf *Filter, data []byte) bool {
 //@   requires q < 64
 //@   ensures (uint64(0) & (uint64(1) << q)) == 0
 
-//@ define bfShape(bf) := bf.size >= 1 && bf.hashCount >= 0 && len(bf.bitArray) == (int(bf.size)+63)/64
+// ghostShape: the bit array has a word for every bit position below size.
+func ghostShape(bf *Filter) bool {
+	return bf.size >= 1 && bf.hashCount >= 0 && len(bf.bitArray) == (int(bf.size)+63)/64
+}
+
+//@ define bfShape(bf) := ghostShape(bf)
 
 //@ func NewFilter
 //@   property C17
